@@ -39,6 +39,15 @@ theorem readLen_len (r : Reader) (n : Nat) (t : Bytes) (hn : n < 2^31)
   rw [readLen_eq 0 r]
   exact C02_rt_int32 r n 0 0 true t (by decide) (by omega) h
 
+/-- `CheckLength` passes for a count/length that does not exceed the unread bytes -/
+theorem checkLength_ok (r : Reader) (n : Nat) (bs : Bytes) (h : r.rest = bs) (hn : n ≤ bs.length) :
+    checkLength (n : Int) r = (.ok (), r) := by
+  have hl := congrArg List.length h
+  simp only [Reader.rest, List.length_drop, Array.length_toList] at hl
+  unfold checkLength Reader.remaining
+  have : ¬ ((n : Int) < 0 ∨ (n : Int) > ((r.data.size - r.pos : Nat) : Int)) := by omega
+  rw [if_neg this]
+
 /-! ## StructEnd -/
 
 theorem skipToStructEnd_end (r : Reader) (t : Bytes) (h : r.rest = writeHead tyStructEnd 0 ++ t) :
@@ -63,8 +72,9 @@ theorem decVar_vec (env : Env) (fuel tag : Nat) (req : Bool) (e : Ty) (old : Val
           match readLen r1 with
           | (.error er, r') => (.error er, r')
           | (.ok len, r2) =>
-            if len < 0 then (.error (.panic "makeslice"), r2)
-            else decElems env fuel e len.toNat [] r2
+            match checkLength len r2 with
+            | (.error er, r') => (.error er, r')
+            | (.ok (), r3) => decElems env fuel e len.toNat [] r3
         else if tyCur = tySimpleList then
           if e = .i8 ∨ e = .u8 then
             match skipTo tyBYTE 0 true r1 with
@@ -98,7 +108,8 @@ theorem decVar_arr (env : Env) (fuel tag : Nat) (req : Bool) (n : Nat) (e : Ty) 
             let oldVs := match old with
               | .list vs => vs
               | _ => []
-            decArr env fuel e n 0 len oldVs r2
+            if len > (n : Int) then (.error .mismatch, r2)
+            else decArr env fuel e n 0 len oldVs r2
         else (.error .mismatch, r1) := by
   conv => lhs; unfold decVar
   rfl
@@ -112,7 +123,10 @@ theorem decVar_map (env : Env) (fuel tag : Nat) (req : Bool) (k v : Ty) (old : V
         else
           match readLen r1 with
           | (.error er, r') => (.error er, r')
-          | (.ok len, r2) => decPairs env fuel k v len [] r2 := by
+          | (.ok len, r2) =>
+            match checkLength len r2 with
+            | (.error er, r') => (.error er, r')
+            | (.ok (), r3) => decPairs env fuel k v len [] r3 := by
   conv => lhs; unfold decVar
   rfl
 
